@@ -150,6 +150,52 @@ class PGen(object):
         self.items = items  # python list or SSeq
 
 
+class PAbsSeq(object):
+    """Input sequence abstracted by its length and uninterpreted element functions: element i is a tuple of
+    length kind(i) (one of `kinds`) whose j-th component is f_j(i).  Reading the same index twice gives the same
+    element; nothing else is assumed about the contents (plus `elem_facts`, the type invariant of an element)."""
+
+    def __init__(self, name, kinds, width, elem_facts=None):
+        self.name = name
+        self.n = z3.FreshConst(z3.IntSort(), name + '_len')
+        self.kind = z3.Function(name + '_kind', z3.IntSort(), z3.IntSort())
+        self.f = [z3.Function('%s_f%d' % (name, j), z3.IntSort(), z3.IntSort()) for j in range(width)]
+        self.kinds = tuple(kinds)
+        self.elem_facts = elem_facts
+        self.entry_facts = [self.n >= 0]
+
+
+class FoldAbs(object):
+    """Contents of a list (PList.val) abstracted by: its length, its last element and the values of user-given
+    folds over its elements.  `spec` is a FoldSpec."""
+
+    def __init__(self, spec, n, last_kind, last_fields, folds):
+        self.spec, self.n, self.last_kind, self.last_fields, self.folds = spec, n, last_kind, last_fields, folds
+        self.last = None        # concrete tuple once known
+
+
+class FoldSpec(object):
+    """type of a list of tuples in a loop contract: `kinds` = possible tuple lengths, `folds` = ordered
+    {name: step(folds_dict_of_terms, element_tuple_of_SInt) -> z3 term}"""
+
+    def __init__(self, kinds, width, folds):
+        self.kinds, self.width, self.folds = tuple(kinds), width, folds
+
+    def fresh(self, tag):
+        n = z3.FreshConst(z3.IntSort(), 'n_' + tag)
+        fa = FoldAbs(self, n, z3.FreshConst(z3.IntSort(), 'lastkind_' + tag),
+                     [z3.FreshConst(z3.IntSort(), 'last%d_%s' % (j, tag)) for j in range(self.width)],
+                     dict((k, z3.FreshConst(z3.IntSort(), '%s_%s' % (k, tag))) for k in self.folds))
+        return fa
+
+    def of_list(self, items):
+        """fold values of a concrete list of tuples"""
+        f = dict((k, z3.IntVal(0)) for k in self.folds)
+        for x in items:
+            f = dict((k, step(f, x)) for k, step in self.folds.items())
+        return f
+
+
 class Alphabet(object):
     """A concrete string of distinct characters and its inverse dict (e.g. INT_B64 / B64_INT).
     Strings over it are represented by their digit sequences (bijection checked concretely)."""
@@ -542,6 +588,10 @@ class Engine(object):
             return z3.Length(v.t) != 0
         if isinstance(v, (SSeq, SEnc)):
             return z3.Length(v.t) != 0
+        if isinstance(v, PAbsSeq):
+            return v.n != 0
+        if isinstance(v, PList) and isinstance(v.val, FoldAbs):
+            return v.val.n != 0
         if isinstance(v, PList):
             return self.truth(v.val) if isinstance(v.val, SSeq) else bool(v.val)
         if isinstance(v, PDict):
@@ -585,6 +635,8 @@ class Engine(object):
             if isinstance(ty, T):
                 for fact in ty.facts(v):
                     self.assume(fact)
+            for fact in getattr(v, 'entry_facts', ()):
+                self.assume(fact)
             if isinstance(v, PList):
                 self.entry[pname] = PList(v.val if isinstance(v.val, SSeq) else list(v.val))
             elif isinstance(v, PObj):
@@ -599,6 +651,8 @@ class Engine(object):
         # change what the contract talks about
         self.params0 = dict(frame.vars)
         self.yields = PList([]) if c.yields is not None else None
+        for g in c.hints.get('ghost_init', ()):        # ghost variables defined on every path (also early returns)
+            self.exec_ghost(g, frame)
         for i, r in enumerate(c.requires):
             self.assume(self.coerce(self.ev_spec(r, frame), Bool))
         self.use_lemmas('entry', frame)
@@ -855,6 +909,10 @@ class Engine(object):
 
     def st_Assert(self, s, frame):
         v = self.ev(s.test, frame)
+        if getattr(self, 'in_spec', False):
+            label = s.msg.value if isinstance(s.msg, ast.Constant) else ast.unparse(s.test)[:60]
+            self.oblige('%s.ghost_assert[%s]' % (self.c.funcname, label), self.coerce_bool(v), kind='assert')
+            return
         self.oblige('%s.assert@%d' % (self.c.funcname, s.lineno - self.fnode.lineno),
                     self.coerce_bool(v), kind='safety')
 
@@ -1015,7 +1073,14 @@ class Engine(object):
             if isinstance(obj, PList):
                 if ty is None:
                     raise Unsupported('loop havoc: list %s needs a type in the loop contract' % name)
-                obj.val = ty.seq.fresh('%s_%s' % (name, tag))
+                if isinstance(ty, FoldSpec):
+                    obj.val = ty.fresh('%s_%s' % (name, tag))
+                    self.assume(obj.val.n >= 0)
+                    self.assume(z3.Or(*[obj.val.last_kind == k for k in ty.kinds]))
+                elif callable(getattr(ty, 'havoc_list', None)):
+                    obj.val = ty.havoc_list(self, '%s_%s' % (name, tag))
+                else:
+                    obj.val = ty.seq.fresh('%s_%s' % (name, tag))
             elif isinstance(obj, PObj):
                 fields = L.types.get(name)
                 if not isinstance(fields, dict):
@@ -1152,7 +1217,7 @@ class Engine(object):
             return list(it)
         if isinstance(it, (str,)):
             return list(it)
-        if isinstance(it, (SSeq, SStr, SEnc, SEncMap)):
+        if isinstance(it, (SSeq, SStr, SEnc, SEncMap, PAbsSeq)):
             return it
         if isinstance(it, PDict):
             return list(it.val.keys())
@@ -1163,10 +1228,23 @@ class Engine(object):
     def seq_len(self, seq):
         if isinstance(seq, list):
             return len(seq)
+        if isinstance(seq, PAbsSeq):
+            return seq.n
         return z3.Length(seq.t)
 
     def seq_at(self, seq, i):
         """element at (non-negative, in range) index term i."""
+        if isinstance(seq, PAbsSeq):
+            self.assume(z3.Or(*[seq.kind(i) == k for k in seq.kinds]))     # type invariant of the sequence
+            for k in seq.kinds:
+                if k == seq.kinds[-1] or self.decide(seq.kind(i) == k):
+                    if k == seq.kinds[-1]:
+                        self.assume(seq.kind(i) == k)
+                    elem = tuple(SInt(seq.f[j](i)) for j in range(k))
+                    if seq.elem_facts is not None:
+                        for fact in seq.elem_facts(elem):
+                            self.assume(fact)
+                    return elem
         if isinstance(seq, SStr):
             return SStr(z3.SubString(seq.t, i, 1))
         if isinstance(seq, SEnc):
@@ -1697,6 +1775,20 @@ class Engine(object):
     def subscript(self, obj, idx, node=None):
         if isinstance(obj, PGen) and getattr(self, 'in_spec', False):
             obj = PList(obj.items) if isinstance(obj.items, list) else obj.items
+        if isinstance(obj, PList) and isinstance(obj.val, FoldAbs):
+            fa = obj.val
+            if is_sym(idx) or idx != -1:
+                raise Unsupported('only [-1] of a fold-abstracted list')
+            self.oblige('%s.index@%s' % (self.c.funcname, self.rel(node)), fa.n > 0, 'safety')
+            if fa.last is None:
+                for k in fa.spec.kinds:
+                    if k == fa.spec.kinds[-1] or self.decide(fa.last_kind == k):
+                        if k == fa.spec.kinds[-1]:
+                            self.assume(fa.last_kind == k)
+                        fa.last = tuple(SInt(fa.last_fields[j]) for j in range(k))
+                        fa.last_kind = z3.IntVal(k)
+                        break
+            return fa.last
         if isinstance(obj, PList):
             return self.seq_index(obj.val, idx, node, 'list')
         if isinstance(obj, (tuple, list)):
@@ -1909,6 +2001,15 @@ class Engine(object):
 
     # ------------------------------------------------------------------ lists
     def list_append(self, lst, v, et=None):
+        if isinstance(lst.val, FoldAbs):
+            fa = lst.val
+            if not isinstance(v, tuple) or len(v) not in fa.spec.kinds:
+                raise Unsupported('append of %r to a fold-abstracted list' % (v,))
+            nf = dict((k, step(fa.folds, v)) for k, step in fa.spec.folds.items())
+            new = FoldAbs(fa.spec, fa.n + 1, z3.IntVal(len(v)), None, nf)
+            new.last = v
+            lst.val = new
+            return
         if isinstance(lst.val, list):
             lst.val.append(v)
             return
@@ -2312,7 +2413,13 @@ class Engine(object):
                 if is_sym(a):
                     raise Unsupported('%s of symbolic value' % fn.__name__)
                 cargs.append(a)
+            cargs = [list(a) if isinstance(a, tuple) else a for a in cargs]
             if any(is_sym(x) for a in cargs if isinstance(a, list) for x in a):
+                if fn is sum and all(isinstance(x, (SInt, int)) and not isinstance(x, bool) for x in cargs[0]):
+                    acc = cargs[1] if len(cargs) > 1 else 0
+                    for x in cargs[0]:
+                        acc = self.binop(ast.Add(), acc, x, node)
+                    return acc
                 if fn in (enumerate, zip, reversed):
                     return PList([tuple(x) if isinstance(x, tuple) else x for x in fn(*cargs)])
                 raise Unsupported('%s over symbolic elements' % fn.__name__)
@@ -2352,6 +2459,10 @@ class Engine(object):
         raise Unsupported('call of %r (no contract, no model)' % (fn,))
 
     def builtin_len(self, v):
+        if isinstance(v, PAbsSeq):
+            return SInt(v.n)
+        if isinstance(v, PList) and isinstance(v.val, FoldAbs):
+            return SInt(v.val.n)
         if isinstance(v, PList):
             v = v.val
         if isinstance(v, PDict):
